@@ -21,16 +21,26 @@ type Args struct {
 	Mode   string
 }
 
+var regArgs Args
+
+// RegisterFlags declares the common flags without parsing (for harnesses built as test
+// binaries, where package testing parses the command line).
+func RegisterFlags() {
+	flag.Uint64Var(&regArgs.Seed, "seed", 1, "PRNG seed")
+	flag.IntVar(&regArgs.N, "n", 100, "number of histories to generate")
+	flag.StringVar(&regArgs.Out, "out", "", "output file (default stdout)")
+	flag.StringVar(&regArgs.Replay, "replay", "", "file of histories (conf # ops [# ...]) to run instead of generating")
+	flag.StringVar(&regArgs.Mode, "mode", "", "harness specific mode")
+}
+
+// GetArgs returns the flags registered by RegisterFlags after parsing.
+func GetArgs() Args { return regArgs }
+
 // ParseArgs reads the common flags.
 func ParseArgs() Args {
-	var a Args
-	flag.Uint64Var(&a.Seed, "seed", 1, "PRNG seed")
-	flag.IntVar(&a.N, "n", 100, "number of histories to generate")
-	flag.StringVar(&a.Out, "out", "", "output file (default stdout)")
-	flag.StringVar(&a.Replay, "replay", "", "file of histories (conf # ops [# ...]) to run instead of generating")
-	flag.StringVar(&a.Mode, "mode", "", "harness specific mode")
+	RegisterFlags()
 	flag.Parse()
-	return a
+	return regArgs
 }
 
 // Rng is the single PRNG stream of a run.
@@ -168,6 +178,15 @@ func (w *Writer) Close(path string) {
 // Atoi64 parses a decimal uint64 wire value.
 func AtoU64(s string) uint64 {
 	v, err := strconv.ParseUint(s, 10, 64)
+	if err != nil {
+		panic(err)
+	}
+	return v
+}
+
+// AtoI64 parses a decimal int64.
+func AtoI64(s string) int64 {
+	v, err := strconv.ParseInt(s, 10, 64)
 	if err != nil {
 		panic(err)
 	}
